@@ -199,7 +199,7 @@ def gen_call(rng, want_valid):
             (V2, k2) = invalid_rotation(rng) if slot in (1, 2) else valid_rotation(rng)
             kind = k1 + '/' + k2
         args = {'U1': V1.tolist(), 'U2': V2.tolist(), 'cs': cs}
-    return {'mod': modname, 'api': api, 'args': args, 'cls': cls, 'kind': kind}
+    return {'mod': modname, 'api': api, 'args': args, 'cls': cls, 'kind': kind, 'form': rng.choice(['pos', 'pos', 'kw', 'mixed'])}
 
 
 # ------------------------------------------------------------------------------------------------
@@ -226,19 +226,39 @@ def _invoke(c):
     mod = {'tools': tools, 'laue': laue, 'symmetry': symmetry}[c['mod']]
     a = c['args']
     api = c['api']
+    f = getattr(mod, api)
     if api in ('u_to_euler', 'u_to_rod'):
-        return getattr(mod, api)(np.array(a['U']))
-    if api == 'u_to_ubi':
-        return mod.u_to_ubi(np.array(a['U']), list(a['cell']))
-    if api in ('ubi_to_u', 'ub_to_u_b', 'ubi_to_rod', 'ubi_to_u_b'):
-        return getattr(mod, api)(np.array(a['M']))
-    if api == 'ubi_to_u_and_eps':
-        return mod.ubi_to_u_and_eps(np.array(a['M']), list(a['cell']))
-    if api == 'euler_to_u':
-        return mod.euler_to_u(*a['angles'])
-    if api == 'Umis':
-        return mod.Umis(np.array(a['U1']), np.array(a['U2']), a['cs'])
-    raise KeyError(api)
+        pos = [np.array(a['U'])]
+    elif api == 'u_to_ubi':
+        pos = [np.array(a['U']), list(a['cell'])]
+    elif api in ('ubi_to_u', 'ub_to_u_b', 'ubi_to_rod', 'ubi_to_u_b'):
+        pos = [np.array(a['M'])]
+    elif api == 'ubi_to_u_and_eps':
+        pos = [np.array(a['M']), list(a['cell'])]
+    elif api == 'euler_to_u':
+        pos = list(a['angles'])
+    elif api == 'Umis':
+        pos = [np.array(a['U1']), np.array(a['U2']), a['cs']]
+    else:
+        raise KeyError(api)
+    return _call_form(f, pos, c.get('form', 'pos'))
+
+
+def _call_form(f, pos, form):
+    """call f with the arguments given positionally ('pos'), all by keyword ('kw') or the first positionally and the rest by keyword
+    ('mixed'); the parameter names are those of the function's own current signature, so a renamed parameter is not an issue.
+    A validation that only looks at positional arguments (a decorator inspecting args[0]) is bypassed by a keyword call."""
+    if form == 'pos':
+        return f(*pos)
+    import inspect
+    try:
+        ps = list(inspect.signature(f).parameters.values())
+    except (TypeError, ValueError):
+        return f(*pos)
+    if len(ps) < len(pos) or any(p.kind != inspect.Parameter.POSITIONAL_OR_KEYWORD for p in ps[:len(pos)]):
+        return f(*pos)
+    k0 = 0 if form == 'kw' else 1
+    return f(*pos[:k0], **{p.name: v for p, v in zip(ps[k0:len(pos)], pos[k0:])})
 
 
 def _outcome(c):
